@@ -158,6 +158,118 @@ theorem genLoop2_eq_genLoop (hQ : ∀ k, progAt P rs k = Q) (D : DiagCtx) :
 
 end const
 
+/-! ## Part A' — files the code cannot tell apart (`sameFile`, `canonH`) -/
+
+theorem sameFile_refl (a : AFile) : sameFile a a = true := by simp [sameFile]
+
+theorem sameFile_iff {a b : AFile} : sameFile a b = true ↔
+    a.origin = b.origin ∧ a.derived = b.derived ∧ Pipeline.allCalls a.ir = Pipeline.allCalls b.ir := by
+  simp [sameFile]
+
+theorem firstSame_some (f : AFile) : ∀ (l : List AFile) (i k : Nat), firstSame f i l = some k →
+    ∃ j g, k = i + j ∧ l[j]? = some g ∧ sameFile g f = true := by
+  intro l
+  induction l with
+  | nil => intro i k h; simp [firstSame] at h
+  | cons g r ih =>
+    intro i k h
+    unfold firstSame at h
+    by_cases hs : sameFile g f = true
+    · simp only [hs, if_true, Option.some.injEq] at h
+      exact ⟨0, g, by omega, rfl, hs⟩
+    · simp only [hs, Bool.false_eq_true, if_false] at h
+      obtain ⟨j, g', e, hj, hs'⟩ := ih (i + 1) k h
+      exact ⟨j + 1, g', by omega, by simpa using hj, hs'⟩
+
+theorem firstSame_isSome (f : AFile) : ∀ (l : List AFile) (i : Nat), f ∈ l → (firstSame f i l).isSome = true := by
+  intro l
+  induction l with
+  | nil => intro i h; cases h
+  | cons g r ih =>
+    intro i h
+    unfold firstSame
+    by_cases hs : sameFile g f = true
+    · simp [hs]
+    · simp only [hs, Bool.false_eq_true, if_false]
+      rcases List.mem_cons.mp h with e | hr
+      · subst e; exact absurd (sameFile_refl f) hs
+      · exact ih (i + 1) hr
+
+/-- the representative of file `h` exists and cannot be told apart from it -/
+theorem canonH_spec {fs : List AFile} {h : Nat} {f : AFile} (hf : fs[h]? = some f) :
+    ∃ g, fs[canonH fs h]? = some g ∧ sameFile g f = true := by
+  unfold canonH
+  rw [hf]
+  simp only
+  cases hi : firstSame f 0 fs with
+  | none =>
+    have := firstSame_isSome f fs 0 (List.mem_of_getElem? hf)
+    rw [hi] at this
+    cases this
+  | some k =>
+    obtain ⟨j, g, e, hj, hs⟩ := firstSame_some f fs 0 k hi
+    simp only [Option.getD_some]
+    have : k = j := by omega
+    subst this
+    exact ⟨g, hj, hs⟩
+
+theorem canonH_none {fs : List AFile} {h : Nat} (hf : fs[h]? = none) : canonH fs h = h := by
+  unfold canonH; rw [hf]
+
+theorem canonH_single (t : AFile) : canonH [t] 0 = 0 := by
+  simp [canonH, firstSame, sameFile_refl]
+
+theorem pathsConsistent_single (t : AFile) : pathsConsistent [t] = true := by
+  simp [pathsConsistent, sameFile_refl]
+
+theorem originAt_canonH (fs : List AFile) (h : Nat) : originAt fs (canonH fs h) = originAt fs h := by
+  cases hf : fs[h]? with
+  | none => rw [canonH_none hf]
+  | some f =>
+    obtain ⟨g, hg, hs⟩ := canonH_spec hf
+    simp [originAt, hg, hf, (sameFile_iff.mp hs).1]
+
+/-- resolution of a `Func` / `Class` symbol depends on the calling file through its PATH only -/
+theorem resolveSym_canonH (fs : List AFile) (h : Nat) (s : Sym) :
+    resolveSym fs (canonH fs h) s = resolveSym fs h s := by
+  cases hf : fs[h]? with
+  | none => rw [canonH_none hf]
+  | some f =>
+    obtain ⟨g, hg, hs⟩ := canonH_spec hf
+    unfold resolveSym
+    rw [originAt_canonH]
+    simp only [hg, hf, Option.bind_some, (sameFile_iff.mp hs).2.1]
+
+theorem realClass2_canonH (fs : List AFile) (h : Nat) (t : Sym) :
+    realClass2 fs (canonH fs h) t = realClass2 fs h t ∨
+    (realClass2 fs (canonH fs h) t = (canonH fs h, t) ∧ realClass2 fs h t = (h, t)) := by
+  unfold realClass2
+  rw [originAt_canonH]
+  cases (classCandidatesFrom t.name 0 fs).find? fun c => originAt fs c.1 == originAt fs h with
+  | some c => left; rfl
+  | none => right; exact ⟨rfl, rfl⟩
+
+/-- **`find_call_target_and_ir` cannot tell same-path files apart**: the answer for a call held by
+file `h` is the answer for its representative. -/
+theorem resolveCall2_canonH (P : Project) (fs : List AFile) (h : Nat) (c : CallSym) :
+    resolveCall2 P fs (canonH fs h) c = resolveCall2 P fs h c := by
+  unfold resolveCall2
+  cases c.target with
+  | none => rfl
+  | some t =>
+    simp only
+    cases hk : t.kind with
+    | builtin => rfl
+    | name => rfl
+    | import_ => rfl
+    | func => simp only [resolveSym_canonH]
+    | cls =>
+      simp only
+      rcases realClass2_canonH fs h t with e | ⟨e1, e2⟩
+      · rw [e]
+      · rw [e1, e2]
+        simp only [resolveSym_canonH]
+
 /-! ## Part B — one file, no imports -/
 
 /-- the call's target is not an `Import` symbol -/
@@ -202,7 +314,7 @@ theorem fnInfo2_single (ord : List CallSym → List CallSym) (p : Sym × IR) :
     fnInfo2 ord [t] 0 p = Pipeline.fnInfo ord (Pipeline.allCalls t.ir) p := by
   have h : callRec2 [t] 0 = Pipeline.callRec (Pipeline.allCalls t.ir) := by
     funext c
-    simp only [callRec2, Pipeline.callRec, cidBase, callsAt, List.take_zero, List.map_nil, List.sum_nil,
+    simp only [callRec2, canonH_single, Pipeline.callRec, cidBase, callsAt, List.take_zero, List.map_nil, List.sum_nil,
       Nat.zero_add, List.getElem?_cons_zero]
   simp only [fnInfo2, Pipeline.fnInfo, h]
 
@@ -377,6 +489,8 @@ theorem runWith2_single_file (ord : List CallSym → List CallSym) (P : Project)
         { key := [], origin := P.target.origin, derived := P.target.derived, ctx := s.ctx, ir := s.ir }
         ord (factsOf P P.target) rfl imp hT
       simp only at hres ⊢
+      rw [pathsConsistent_single]
+      simp only [Bool.not_true, Bool.false_eq_true, if_false]
       rw [hres]
       cases Pipeline.results ord (factsOf P P.target) imp s.ir with
       | ok q => obtain ⟨a, b⟩ := q; simp
@@ -669,11 +783,25 @@ theorem run2_ok {Pj : Project} {doc : ResultsDoc} {ds : List Diag} (h : run2 Pj 
   | ok x =>
     obtain ⟨t, irs, ds0⟩ := x
     simp only [ha] at h
+    cases hpc : pathsConsistent (t :: irs) with
+    | false =>
+      rw [hpc] at h
+      simp only [Bool.not_false, if_true] at h
+      cases h
+    | true =>
+    rw [hpc] at h
+    simp only [Bool.not_true, Bool.false_eq_true, if_false] at h
     unfold results2 resultsStore2 at h
     cases hg : genLoop2 (toProg2 id (t :: irs)) (rsOf Pj (t :: irs)) (diagCtx2 Pj (t :: irs) (toProg2 id (t :: irs)))
         (List.range t.ir.length) (toStore (gfir (t :: irs))) with
-    | fatal a b => simp [hg] at h
-    | crash e => simp [hg] at h
+    | fatal a b =>
+      simp only [rsOf] at hg
+      simp only [hg] at h
+      cases h
+    | crash e =>
+      simp only [rsOf] at hg
+      simp only [hg] at h
+      cases h
     | ok y =>
       obtain ⟨res, σ', ds1⟩ := y
       simp only [rsOf] at hg
@@ -716,7 +844,9 @@ theorem cidArgs_progQ (fs : List AFile) (q : Nat → Option Key) : CidArgs (prog
     obtain ⟨cs, hcs, e1⟩ := hc
     obtain ⟨cs', hcs', e2⟩ := hc'
     subst e1; subst e2
-    simp only [callRec2, callsAt, hj, Nat.add_left_cancel_iff] at e
+    obtain ⟨g, hg, hsame⟩ := canonH_spec hj
+    have hall : Pipeline.allCalls g.ir = Pipeline.allCalls f.ir := (sameFile_iff.mp hsame).2.2
+    simp only [callRec2, callsAt, hg, hall, Nat.add_left_cancel_iff] at e
     have hm : cs ∈ Pipeline.allCalls f.ir := Pipeline.mem_allCalls hp hcs
     have hm' : cs' ∈ Pipeline.allCalls f.ir := Pipeline.mem_allCalls hp hcs'
     rw [Pipeline.cidOf_inj hm hm' e]
@@ -896,18 +1026,24 @@ theorem coherent_all (Pj : Project) (fs : List AFile) :
     have hxlt : x < (allCalls f.ir).length := by
       have := Pipeline.indexOf?_some hx
       exact (List.getElem?_eq_some_iff.mp this).1
-    have hcid : (callRec2 fs j cs).cid = cidBase fs j + x := by
-      simp [callRec2, callsAt, hj, Pipeline.cidOf, hx]
+    -- the class is numbered in the representative of file `j` (same path, same Call symbols)
+    obtain ⟨g, hg, hsame⟩ := canonH_spec hj
+    have hall : allCalls g.ir = allCalls f.ir := (sameFile_iff.mp hsame).2.2
+    have hcid : (callRec2 fs j cs).cid = cidBase fs (canonH fs j) + x := by
+      simp [callRec2, callsAt, hg, hall, Pipeline.cidOf, hx]
     have hhome : homeOf fs k = j := by
       obtain ⟨h1, _⟩ := global_at fs 0 j idx f p hj hp
       unfold homeOf
       rw [ek, h1]
       simp
     unfold rsOf resolveAt qAll
-    rw [hcid, fileOfFrom_base fs 0 j x f hj hxlt, hhome, Nat.zero_add]
-    cases (allCalls2 fs)[cidBase fs j + x]? with
+    rw [hcid, fileOfFrom_base fs 0 (canonH fs j) x g hg (by rw [hall]; exact hxlt), hhome, Nat.zero_add]
+    cases (allCalls2 fs)[cidBase fs (canonH fs j) + x]? with
     | none => rfl
-    | some c' => cases resolveCall2 Pj fs j c' <;> rfl
+    | some c' =>
+      simp only
+      rw [resolveCall2_canonH Pj fs j c']
+      cases resolveCall2 Pj fs j c' <;> rfl
 
 /-- **Composition, unconditionally.** Every successful multi-file run is `Results.generate` on
 the ONE program `progQ fs (qAll …)` over the concatenated FileIrs. -/
